@@ -31,6 +31,22 @@ check('C01',
       TRUST + ' Outside the bound: inputs longer than N bytes, stack exhaustion (no stack model), non-empty contexts.',
       'symbolic execution of rustc MIR with z3 (path exploration, bounded input length)', 'DESIGN.md section 5 C01')
 
+check('C02',
+      'Bounded symbolic execution of the tokenizer+parser MIR on a family of 113 (quick) / ~250 (thorough) expression templates over operators o1..o3 '
+      'registered through the real register_infix_op with *symbolic* precedence in [1,10^9] and symbolic associativity, mixed with built-ins, `not`, '
+      'prefix/postfix operators, conditionals, parentheses and containers. The parser\'s own comparisons fork on the order type of the precedences, z3 decides '
+      'each branch, and the resulting AST is compared with a reference parser of the documented rules evaluated under the same path condition: the grouping is '
+      'decided for every operator table of each class, adjacent precedences included. Plus a concrete sweep of all 1089 ordered pairs of built-in operators.',
+      TRUST + ' Oracle: /verif/mirsym/harness/refparse.py. Outside: expressions that are not instances of the templates; tables where equal precedences carry different associativities.',
+      'symbolic execution of rustc MIR with z3; symbolic operator tables; reference-parser oracle', 'DESIGN.md section 5 C02')
+
+check('C12',
+      'Bounded symbolic execution of ExprAST::expr and the parser on 179 (quick) / ~260 (thorough) ASTs obtained by the real parser from fully parenthesised trees '
+      '(binary under binary on both sides, prefix/postfix over compound operands, conditionals in every position, `not OP` forms, containers, strings with either quote) '
+      'over operators with symbolic precedence/associativity: for every table class z3 admits, parse(t.expr()) == t and expr is idempotent.',
+      TRUST + ' Outside: ASTs that are not instances of the tree family (depth > 3), operator-word names, hand-built ASTs.',
+      'symbolic execution of rustc MIR with z3; symbolic operator tables; round-trip assertion', 'DESIGN.md section 5 C12')
+
 import sys
 props = [json.loads(l) for l in open('/verif/properties.jsonl')]
 for p in props:
